@@ -32,6 +32,21 @@ fn scalar(v: &Value, rng: &mut Rng) -> String {
     }
 }
 
+thread_local! {
+    /// how the tag `!sd` may be spelled in the document being printed: 0 = literally, 1 = also with a
+    /// %-escaped character (`!s%64`), 2 = also through a `%TAG` handle declared at the top (`!e!d`)
+    static TAG_STYLE: std::cell::Cell<u8> = std::cell::Cell::new(0);
+}
+
+/// one spelling of the tag `!sd` (all of them are the same tag to a YAML processor)
+fn sd_tag(rng: &mut Rng) -> &'static str {
+    match TAG_STYLE.with(|t| t.get()) {
+        1 => if rng.chance(1, 2) { "!s%64" } else { "!sd" },
+        2 => *rng.pick(&["!e!d", "!e!d", "!sd", "!s%64"]),
+        _ => "!sd",
+    }
+}
+
 fn emit(node: &Node, indent: usize, rng: &mut Rng, out: &mut String) {
     let pad = " ".repeat(indent);
     match node {
@@ -41,7 +56,7 @@ fn emit(node: &Node, indent: usize, rng: &mut Rng, out: &mut String) {
         Node::Obj(ms, _) => {
             for m in ms {
                 out.push_str(&pad);
-                if matches!(m.mark, Mark::Marked { .. }) { out.push_str("!sd "); }
+                if matches!(m.mark, Mark::Marked { .. }) { out.push_str(sd_tag(rng)); out.push(' '); }
                 out.push_str(&quote(&m.key, rng.chance(1, 2)));
                 out.push(':');
                 inline_or_block(&m.node, indent, rng, out);
@@ -52,7 +67,7 @@ fn emit(node: &Node, indent: usize, rng: &mut Rng, out: &mut String) {
                 out.push_str(&pad);
                 out.push('-');
                 if matches!(e.mark, Mark::Marked { .. }) {
-                    if let Node::Leaf(Value::String(s)) = &e.node { out.push_str(" !sd "); out.push_str(&quote(s, rng.chance(1, 2))); out.push('\n'); continue; }
+                    if let Node::Leaf(Value::String(s)) = &e.node { out.push(' '); out.push_str(sd_tag(rng)); out.push(' '); out.push_str(&quote(s, rng.chance(1, 2))); out.push('\n'); continue; }
                 }
                 inline_or_block(&e.node, indent, rng, out);
             }
@@ -109,7 +124,14 @@ pub fn run_case(ctx: &mut Ctx, case: &Value) {
     let marks = tree.marks();
     let mut rng = Rng::fork(case["fmt_seed"].as_u64().unwrap_or(1), 3);
     let mut doc = String::new();
+    // one document in eight spells the tag in the other ways YAML offers (the first draws of the stream are
+    // otherwise unchanged: the style is a function of the format seed)
+    let style = match case["fmt_seed"].as_u64().unwrap_or(1) % 8 { 3 => 1u8, 5 => 2u8, _ => 0u8 };
+    TAG_STYLE.with(|t| t.set(style));
+    if style == 2 { doc.push_str("%TAG !e! !s\n---\n"); }
     emit(&tree, 0, &mut rng, &mut doc);
+    TAG_STYLE.with(|t| t.set(0));
+    if style != 0 { ctx.report.bump(&format!("tag-spelling-style:{}", style)); }
     let claims = tree.plain();
     let mut c2 = case.clone();
     c2["yaml"] = json!(doc);
@@ -173,7 +195,7 @@ pub fn run_case(ctx: &mut Ctx, case: &Value) {
 }
 
 pub fn run(ctx: &mut Ctx, replay: Option<&Value>) {
-    ctx.report.rule = "block-style YAML printed from random marked trees: string-keyed mappings (quoted / plain keys, empty, numeric-looking, unicode, '/' and '~' in keys), sequences, null/bool/int/float/string scalars, empty containers; !sd on mapping keys at any depth (inside sequences, below other tagged keys, in single-entry mappings) and on string sequence items; parse_yaml compared with (plain claims, set of marked pointers) and with the model on the corresponding YAML value; then Issuer::iter_disclosable + encode + Holder::verify; non-trivial = distinct tree with a nested/positional tag or >= 2 tags".to_string();
+    ctx.report.rule = "block-style YAML printed from random marked trees: string-keyed mappings (quoted / plain keys, empty, numeric-looking, unicode, '/' and '~' in keys), sequences, null/bool/int/float/string scalars, empty containers; !sd (also spelled `!s%64` or through a `%TAG` handle) on mapping keys at any depth (inside sequences, below other tagged keys, in single-entry mappings) and on string sequence items; parse_yaml compared with (plain claims, set of marked pointers) and with the model on the corresponding YAML value; then Issuer::iter_disclosable + encode + Holder::verify; non-trivial = distinct tree with a nested/positional tag or >= 2 tags".to_string();
     if let Some(case) = replay {
         run_case(ctx, case);
         return;
